@@ -119,17 +119,18 @@ def gen_cases(rng, tier):
     sfs = dict(CURS)
     tag = 'ntx'
     script = _world(rng, tag)
-    for i in range(10 if tier == 'quick' else 60):
+    for i in range(16 if tier == 'quick' else 80):
         cu, ct = rng.sample([c for c, _ in CURS], 2)
-        amt = F(rng.choice(['10987631/1000000', '1234567/1000000', '146506779/1000000',
-                            '839581/100000', '7/8', '1324503/10000']))
+        # rates with 8-9 significant digits: the closest non-tie is then within 1e-10
+        amt = F(rng.choice(['146506779/1000000', '109876313/1000000', '123456789/1000000',
+                            '839580401/1000000', '132450331/1000000', '998877665/1000000']))
         r = [cu, ['int', '1/1'], ct, ['dec', frs(amt)]]
         for o in ('mul', 'div'):
             k = _rate_fields(r, 'MHEVEN')
             src, dst = (cu, ct) if o == 'mul' else (ct, cu)
             if o == 'div':
                 k = 1 / k
-            for n in near_tie_multiples(k, F(sfs[src]), F(sfs[dst]), count=2):
+            for n in near_tie_multiples(k, F(sfs[src]), F(sfs[dst]), count=4):
                 a = n * F(sfs[src])
                 if a > 10 ** 12:
                     continue
